@@ -5,3 +5,7 @@ import "testing"
 func TestC10_Compare(t *testing.T) {
 	checkRapid(t, "C10", "TestC10_Compare", ruleC10, drawC10)
 }
+
+func TestC10_SharedCompare(t *testing.T) {
+	checkRapid(t, "C10", "TestC10_SharedCompare", ruleC10Shared, drawC10Shared)
+}
